@@ -621,7 +621,7 @@ static void doUsage(const vj::Value& cfg, const vj::Value& act) {
    }
    entries += "]";
    vj::Line().str("e", "Usage").str("via", act["via"].str()).raw("argv", dump(act["argv"])).str("out", outcome)
-      .raw("entries", entries).num("stray", stray).emit();
+      .raw("entries", entries).num("stray", stray).str("what", outcome == "ok" ? "" : text).emit();
 }
 
 // C18: help for a single argument (--help-arg=<key>)
